@@ -188,7 +188,7 @@ def check_add_multiple(repo, rep):
     t0 = 1_600_000_000_000 // MIN * MIN
     # (name, stored rows, chunk first minute, chunk length)
     cases = [("empty", 0, 0, 3), ("newer", 3, 3, 3), ("same-chunk-again", 3, 0, 3), ("tail-overlap-full", 4, 2, 2),
-             ("tail-overlap-partial", 4, 3, 3)]
+             ("tail-overlap-partial", 4, 3, 3), ("overlap-longer-than-store", 2, 1, 3), ("overlap-whole-store", 2, 0, 4)]
     for name, n, first, m in cases:
         def mk(dec):
             it = Interp(repo, stubs=W.base_stubs(), decisions=dec)
